@@ -86,7 +86,7 @@ def interleave(units: list, keyfn) -> list:
     return [u for _, _, u in keyed]
 
 
-def _worker_entry(modname, unit):
+def _unit_body(modname, unit):
     faulthandler.enable()
     # hang detection (a unit is seconds to a few minutes of work; the margin is for a machine shared with other batches)
     faulthandler.dump_traceback_later(int(os.environ.get("VERIF_UNIT_TIMEOUT", "1800")), exit=True)
@@ -100,6 +100,71 @@ def _worker_entry(modname, unit):
         return ("err", f"{type(e).__name__}: {e}\n{traceback.format_exc()}", unit)
     finally:
         faulthandler.cancel_dump_traceback_later()
+
+
+def _worker_entry(modname, unit):
+    """One unit = one process.  The pool worker (or the main process) forks a child for the unit and only collects its result, so
+    that no unit ever runs in a process that has executed code under test before: state that the code leaks from one call to the
+    next (a module-level registry, a memo, a remembered refusal) stays inside the unit that created it -- the first run that shows
+    it is then self-contained and replays -- and cannot turn later, unrelated units into a cloud of irreproducible candidates
+    (that is what the seeded change r11a did to the first version of the follow-up check)."""
+    if os.environ.get("VERIF_UNIT_INPROCESS") == "1":
+        return _unit_body(modname, unit)
+    import pickle
+    import select
+    import signal
+
+    r, w = os.pipe()
+    parent_pid = os.getpid()
+    pid = os.fork()
+    if pid == 0:
+        code = 0
+        try:
+            os.close(r)
+            try:
+                from .common import _die_with_parent
+
+                _die_with_parent(parent_pid)
+            except Exception:  # noqa: BLE001
+                pass
+            data = pickle.dumps(_unit_body(modname, unit), protocol=pickle.HIGHEST_PROTOCOL)
+            view = memoryview(data)
+            while view:
+                n = os.write(w, view)
+                view = view[n:]
+            os.close(w)
+        except BaseException:  # noqa: BLE001
+            code = 3
+        finally:
+            os._exit(code)
+    os.close(w)
+    chunks = []
+    deadline = time.time() + int(os.environ.get("VERIF_UNIT_TIMEOUT", "1800")) + 60
+    try:
+        while True:
+            left = deadline - time.time()
+            if left <= 0:
+                os.kill(pid, signal.SIGKILL)
+                return ("err", f"unit {unit} timed out", unit)
+            rl, _, _ = select.select([r], [], [], min(left, 5.0))
+            if not rl:
+                continue
+            b = os.read(r, 1 << 20)
+            if not b:
+                break
+            chunks.append(b)
+    finally:
+        os.close(r)
+        try:
+            os.waitpid(pid, 0)
+        except OSError:
+            pass
+    if not chunks:
+        return ("err", f"unit process died without a result: {unit}", unit)
+    try:
+        return pickle.loads(b"".join(chunks))
+    except Exception as e:  # noqa: BLE001
+        return ("err", f"unit result unreadable: {type(e).__name__}: {e}", unit)
 
 
 def run_units(modname: str, units: list, workers: int | None = None, wall_cap: float | None = None,
@@ -284,28 +349,85 @@ def finish(prop: str, mod, tier: str, seed: int, stats: Stats, viols: list, erro
     for k, n in known_hits:
         print(f"KNOWN-FINDING: property={prop} {k['what']} [signature={k['signature']}, seen {n}x this run]")
     harness_errors = list(errors)
+    # A candidate must be SELF-CONTAINED: its case alone, executed in a process that has run nothing else, shows the violation.
+    # Workers execute many runs one after another; code under test that leaks state between calls (a module-level registry, a
+    # memo) makes LATER, unrelated runs of the same worker misbehave -- those candidates are real symptoms but their case does not
+    # contain the cause.  They are filtered first, cheaply (one forked child of this still-pristine process per candidate), and
+    # counted; the self-contained ones are minimised and verified in a fresh interpreter as before.  If nothing is self-contained
+    # the alarms are unexplained: harness error (exit 2), never a VIOLATION line.
+    unrepro = []
+    contained = []
+    if os.environ.get("VERIF_DEBUG_SIGS"):
+        with open(os.environ["VERIF_DEBUG_SIGS"], "w") as f_:
+            for sig, group in new_viols:
+                f_.write(f"{len(group)}\t{sig}\n")
+                if "followup" in sig:
+                    with open(os.environ["VERIF_DEBUG_SIGS"] + "." + sig.replace("|", "_") + ".json", "w") as g_:
+                        g_.write(jdump([x["case"] for x in group[:3]]))
     for sig, group in new_viols:
+        v = sorted(group, key=lambda x: len(jdump(x["case"])))[0]
+        if len(contained) >= max_report + 4 or len(unrepro) >= 400:
+            contained.append((sig, group, v, None))
+            continue
+        # representatives: the smallest case, and the candidates in discovery order (every unit starts in a pristine process, so
+        # the FIRST violation a unit finds cannot depend on anything but its own case)
+        reps = [v] + [g for g in group[:6] if g is not v]
+        ok = False
+        for cand in reps:
+            try:
+                from .common import in_fork
+
+                ok = in_fork(lambda c_=cand["case"], s_=sig: any(x["signature"] == s_ for x in mod.run_case(c_)["violations"]), timeout=600)
+            except Exception as e:  # noqa: BLE001
+                ok = False
+                unrepro.append(f"violation {sig}: isolated re-run failed: {type(e).__name__}: {e}")
+                break
+            if os.environ.get("VERIF_DEBUG_SIGS"):
+                print(f"DEBUG isolated {sig} rep={reps.index(cand)} ok={ok}", file=sys.stderr)
+            if ok:
+                v = cand
+                break
+        if ok:
+            contained.append((sig, group, v, True))
+        else:
+            unrepro.append(f"violation {sig} did not reproduce in an isolated process (its case does not contain its cause)")
+    for sig, group, v, _ in contained:
         if reported >= max_report:
             print(f"  (+{len(group)} more violation candidates with signature {sig}, not minimised)")
             exit_code = 1
             continue
-        v = sorted(group, key=lambda x: len(jdump(x["case"])))[0]
         case = v["case"]
         try:
-            small = mod.minimise(case, v["clause"], sig) if hasattr(mod, "minimise") else case
-            res = mod.run_case(small)
-            if not any(x["signature"] == sig for x in res["violations"]):
-                small = case
-                res = mod.run_case(case)
-            if not any(x["signature"] == sig for x in res["violations"]):
-                harness_errors.append(f"violation {sig} did not reproduce in-process (nondeterministic harness?)")
+            from .common import in_fork
+
+            # this process never executes a case itself (it must stay pristine for the isolated re-runs): minimisation, the final
+            # run that is recorded in the replay file, and the fall-back to the case as found each get a forked child of their own
+            def _record(c_, s_=sig):
+                res_ = mod.run_case(c_)
+                res_["violations"] = [x for x in res_["violations"] if x["signature"] == s_]
+                if not res_["violations"]:
+                    return None
+                return {"path": write_replay(prop, c_, res_), "detail": res_["violations"][0].get("detail", "")}
+
+            small = in_fork(lambda: mod.minimise(case, v["clause"], sig), timeout=1500) if hasattr(mod, "minimise") else case
+            rec = in_fork(lambda: _record(small), timeout=600)
+            ok, out, path = False, "", None
+            if rec is not None:
+                path = rec["path"]
+                ok, out = verify_replay_fresh(prop, path)
+            if not ok and small != case:
+                # the minimised case may have lost the step that sets the state up: fall back to the case as found
+                rec = in_fork(lambda: _record(case), timeout=600)
+                if rec is not None:
+                    path = rec["path"]
+                    ok, out = verify_replay_fresh(prop, path)
+            if rec is None:
+                unrepro.append(f"violation {sig} did not reproduce in-process (nondeterministic harness?)")
                 continue
-            res["violations"] = [x for x in res["violations"] if x["signature"] == sig]
-            path = write_replay(prop, small, res)
-            ok, out = verify_replay_fresh(prop, path)
             if not ok:
-                harness_errors.append(f"replay {path} did not reproduce in a fresh interpreter:\n{out}")
+                unrepro.append(f"replay {path} did not reproduce in a fresh interpreter:\n{out}")
                 continue
+            res = {"violations": [{"detail": rec["detail"]}]}
             print(f"VIOLATION property={prop} replay={path}")
             print(f"  clause={v['clause']} signature={sig}")
             print(f"  {res['violations'][0].get('detail', '')[:1500]}")
@@ -314,10 +436,17 @@ def finish(prop: str, mod, tier: str, seed: int, stats: Stats, viols: list, erro
             exit_code = 1
         except Exception as e:
             harness_errors.append(f"minimise/replay failed for {sig}: {type(e).__name__}: {e}\n{traceback.format_exc()}")
+    if unrepro and reported:
+        print(f"  ({len(unrepro)} further violation candidate(s) did not reproduce from their own case in an isolated process: "
+              f"symptoms of state left behind in a worker process by earlier runs; not reported individually)")
+    elif unrepro:
+        harness_errors.extend(unrepro)
     coverage = dict(coverage)
     coverage.setdefault("known_findings_seen", [k["signature"] for k, _ in known_hits])
     if harness_errors:
         coverage["harness_errors"] = [h[:500] for h in harness_errors[:5]]
+    if unrepro and reported:
+        coverage["candidates_not_self_contained"] = len(unrepro)
     write_evidence(prop, tier, seed, mod.LEVEL, coverage, assumptions, wall, sum(len(g) for _, g in new_viols), extra)
     if harness_errors:
         print(f"HARNESS-ERROR property={prop}: {len(harness_errors)} problem(s); first:\n{harness_errors[0][:3000]}",
